@@ -89,6 +89,7 @@ PROPS['C15'] = {
         'files': {'src/cloud.rs': ['kani/timing.rs.in']},
         'harnesses': [
             K(TIM, 'housekeep_interval_all_pairs', 'announcement interval block of GenericCloud::housekeep: no arithmetic fault; interval <= 1 or < smallest advertised timeout; <= own keep-alive; all 2^32 pairs', fns=['cloud::GenericCloud::housekeep (block: let interval = ...)']),
+            K(TIM, 'housekeep_interval_from_peer_set_le_4', 'the two statements deriving the interval from the peer set (min over advertised timeouts, then the interval expression): interval <= 1 or < EVERY advertised timeout; <= own keep-alive; every value, up to 4 peers', kind='B', bound='at most 4 peers in the peer set (values unrestricted)', fns=['cloud::GenericCloud::housekeep (block: let min_peer_timeout = ...; let interval = ...;)']),
             K(TIM, 'get_keepalive_all_inputs', 'Config::get_keepalive body: no fault; explicit keep-alive wins; default is 1 or < own peer timeout; all inputs', fns=['config::Config::get_keepalive (body as block)']),
             K(TIM, 'backoff_invariant_step', 'back-off block of reconnect_to_peers: 1 <= timeout <= 3600 and tries <= 10 preserved, no overflow, next attempt at most 3600 s ahead', fns=['cloud::GenericCloud::reconnect_to_peers (block: back-off)']),
             K(TIM, 'configured_peer_is_retained', 'retain predicate of reconnect_to_peers keeps every entry without final_timeout (configured peers are retried indefinitely)', fns=['cloud::GenericCloud::reconnect_to_peers (block: retain predicate)']),
